@@ -23,7 +23,7 @@ def atom_strategy(allow_special):
     gi = st.integers(0, len(SGRID) - 1)
     return st.fixed_dictionaries({
         "el": st.integers(0, 93), "x": st.tuples(gen, gen, gen).map(list), "g": st.tuples(gi, gi, gi).map(list),
-        "special": st.sampled_from([0, 0, 1, 2]) if allow_special else st.just(0),
+        "special": st.sampled_from([0, 0, 1, 2, 3]) if allow_special else st.just(0),
         "occ": st.one_of(S.fl(0.01, 1.0), st.just(1.0), st.just(0.0)) if allow_special else st.one_of(S.fl(0.01, 1.0), st.just(1.0)),
         "adp": st.sampled_from(["Uiso", "Uani", "none"]), "uiso": S.fl(0.002, 0.1),
         "M": st.lists(S.fl(-0.03, 0.03), min_size=9, max_size=9), "eps": S.logfl(1e-5, 1e-3),
@@ -88,6 +88,8 @@ def build(case):
         el = els[a_["el"]]
         if a_["special"] == 0:
             posf = [Fr(k, 9973) for k in a_["x"]]
+        elif a_["special"] == 3:
+            posf = [Fr(0), Fr(0), Fr(0)]          # an atom at the origin (plus a lattice shift): the classic integer-typed position
         elif a_["special"] == 1:
             posf = [SGRID[k] for k in a_["g"]]
         else:   # special in two coordinates, generic in the third
@@ -99,6 +101,8 @@ def build(case):
             M.any_special = True
         pos = np.array([float(x) for x in posf]) + np.array(a_["shift"], float)
         how = case.get("pos_as", "array")
+        if a_["special"] == 3 and i % 2 == 0:
+            how = "int-if-integral"
         if how == "list":
             pos = [float(x) for x in pos]
         elif how == "int-if-integral" and all(float(x).is_integer() for x in pos):
